@@ -521,6 +521,9 @@ func newEnv(r *ev.Run, live bool, prod ...bool) (*env, error) {
 	}}
 	st, err := rig.New(rig.Options{
 		Dir: r.Scratch, Name: name, NoHTTP: true,
+		// the websocket history settings differ between worker processes (default 300 / none / one entry): delivery to
+		// connected subscribers does not depend on them
+		Config:      func(c *config.AppConfig) { c.Websocket.HistoryMax = []int{300, 0, 1}[r.Worker%3] },
 		WrapHeaders: deco.Wrap(hooks),
 		WrapRepos: func(rp *repository.Repositories) {
 			// bookkeeping failures of the webhooks store: UpdateWebhook of a healthy webhook fails now and then
